@@ -223,7 +223,13 @@ def check_subgroup(case, exclude):
 # ------------------------------------------------------------------------------------------------
 def check_crystal(case, exclude):
     rec = case["recipe"]
-    crys = cs.build(rec)
+    try:
+        crys = cs.build(rec)
+    except ArithmeticError as e:
+        # a non-primitive recipe goes through Crystal.reduce: its failure (R12) is C19's subject, the crystal cannot be built here
+        if "Reduction did not produce" in str(e):
+            return {"excluded": ["R12"], "classes": ["reduce_arith_error(C19 domain)"], "nontrivial": False}
+        raise
     d = crys.dim
     L, atoms = cs.atoms_of(crys)
     Linv = np.linalg.inv(L)
@@ -295,7 +301,14 @@ def check_crystal(case, exclude):
         # by symmetry the distance of the whole orbit to the atoms is the distance of its first point
         if min(np.linalg.norm(L @ (geom.wrap(np.asarray(au) - ref[0]) + np.array(R))) for _, au in atoms for R in itertools.product((-1, 0, 1), repeat=d)) < 0.1 * minlen:
             continue
-        new = crys.addbasis(crys.Wyckoffpos(u))
+        try:
+            new = crys.addbasis(crys.Wyckoffpos(u))
+        except ArithmeticError as e:
+            if "Reduction did not produce" in str(e):
+                excl.append("R12")
+                classes.append("addbasis_reduce_arith_error(C19 domain)")
+                continue
+            raise
         label = "addbasis(Wyckoffpos(%s)): " % np.round(u, 6).tolist()
         require(len(new.G) == len(crys.G), lambda: "%sthe new crystal has %d operations, the old one %d" % (label, len(new.G), len(crys.G)))
         require([len(b) for b in new.basis] == [len(b) for b in crys.basis] + [len(ref)], lambda: "%sbasis sizes %s, expected %s" % (label, [len(b) for b in new.basis], [len(b) for b in crys.basis] + [len(ref)]))
